@@ -4,6 +4,7 @@ pub mod c02;
 pub mod c03;
 pub mod c04;
 pub mod c05;
+pub mod c06;
 pub mod c07;
 pub mod c08;
 pub mod c09;
@@ -11,8 +12,10 @@ pub mod c10;
 pub mod c11;
 pub mod c12;
 pub mod c13;
+pub mod c14;
 pub mod c18;
 pub mod c19;
+pub mod c20;
 
 pub fn run(prop: &str, tier: Tier, seed: u64) {
     match prop {
@@ -21,6 +24,7 @@ pub fn run(prop: &str, tier: Tier, seed: u64) {
         "C03" => c03::run(tier, seed),
         "C04" => c04::run(tier, seed),
         "C05" => c05::run(tier, seed),
+        "C06" => c06::run(tier, seed),
         "C07" => c07::run(tier, seed),
         "C08" => c08::run(tier, seed),
         "C09" => c09::run(tier, seed),
@@ -28,8 +32,10 @@ pub fn run(prop: &str, tier: Tier, seed: u64) {
         "C11" => c11::run(tier, seed),
         "C12" => c12::run(tier, seed),
         "C13" => c13::run(tier, seed),
+        "C14" => c14::run(tier, seed),
         "C18" => c18::run(tier, seed),
         "C19" => c19::run(tier, seed),
+        "C20" => c20::run(tier, seed),
         _ => crate::eng::inconclusive(&format!("no E1 harness for {}", prop)),
     }
 }
